@@ -5,6 +5,6 @@ CONSTANTS
   Vals = {1, 2}
   MaxCalls = 2
 SPECIFICATION Spec
-INVARIANTS MutualExclusion MapIsSpec LookupSeesSpec
+INVARIANTS MutualExclusion MapIsSpec LookupSeesSpec RegisterTestAndSet
 PROPERTIES CallsReturn
 CHECK_DEADLOCK FALSE
